@@ -24,7 +24,7 @@ from vf import common, tlc, evidence
 from checks import bobbuild_common as bc
 
 PROP = "C05"
-WEAK = ["PruneBeforeReset", "NoInvalidateBeforeRun", "CommitInputsBeforeRun", "NoPruneOnDigestChange", "CheckoutStateBeforeRun"]
+WEAK = ["PruneBeforeReset", "NoInvalidateBeforeRun", "CommitInputsBeforeRun", "NoPruneOnDigestChange", "CheckoutStateBeforeRun", "NoPruneWhenStateless"]
 ACTIONS = ["Edit", "Begin", "End", "Kill", "PrepStart", "PrepInval", "PrepPrune", "PrepReset", "PrepDone",
            "CoStart", "CoReason", "CoStore", "CoForge", "CoRun", "CoRunFail", "CoRunKilled", "CoCommit", "CoSetRes", "BuStart", "BuInval", "BuPrune", "BuReset",
            "BuSkip", "BuInv1", "BuInv2", "BuRunOk", "BuRunFail", "BuRunKilled", "BuC1", "BuC2", "BuC3",
